@@ -115,8 +115,8 @@ def main():
         chk.run("xonsh.gram derivations k=0", harness.A_harness(tfx, path_oracles=("c03",)), f"{len(xg)} programs derived from every alternative of the working tree's grammar",
                 wall=150 if chk.quick else 900, vacuity=("ok",))
     from symx import errseeds
-    ac = errseeds.after_constructs() + errseeds.spanning_errors()
-    cp = seeds.concat_product(False, 200 if chk.quick else 3000, chk.rng) + seeds.literal_product() + (ac if not chk.quick else seeds.sample(chk.rng, ac, 400))
+    ac = errseeds.after_constructs() + errseeds.spanning_errors() + seeds.expr_product()
+    cp = seeds.concat_product(False, 200 if chk.quick else 3000, chk.rng) + seeds.literal_product() + (ac if not chk.quick else seeds.sample(chk.rng, ac, 2500))
 
     def tfc(ex):
         return cp[harness.choose_index(ex, "c", len(cp))]
